@@ -411,15 +411,30 @@ var numberKeys = []struct {
 	{[]uint16{1100, 1006, 1107}, []string{"res", "result", "auid", "ses", "old-auid", "id", "uid", "msg"}},
 }
 
-var numberPieces = []string{"-", "+", "0", "1", "F", "f", "x", "_", "0x", "FF", "02", "0A", "10", "00", "7FFFFFFF", "80000000", "FFFFFFFF", "4294967295", "9223372036854775808"}
+var numberPieces = []string{"-", "+", "0", "1", "F", "x", "_", "FF", "02", "4294967295", "f", "0x", "0A", "10", "00", "7FFFFFFF", "80000000", "FFFFFFFF", "9223372036854775808"}
 
-// TestC05NumberSoup: every concatenation of up to 3 (thorough: 4) of those pieces as the value of every field that
-// is read as a number, alone and next to an ordinary neighbour, through Parse and every accessor.
+// TestC05NumberSoup: every concatenation of up to 3 of the first ten of those pieces (thorough: of all of them, and up
+// to 4 of the first ten) as the value of every field that is read as a number, alone and next to an ordinary neighbour, through Parse and every accessor.
 func TestC05NumberSoup(t *testing.T) {
-	depth := 3
+	// quick: depth 3 over the ten shortest pieces; thorough: depth 3 over all nineteen, then depth 4 over the ten
+	runs := []struct {
+		pieces []string
+		depth  int
+	}{{numberPieces[:10], 3}}
 	if hx.Thorough() {
-		depth = 4
+		runs[0].pieces = numberPieces
+		runs = append(runs, struct {
+			pieces []string
+			depth  int
+		}{numberPieces[:10], 4})
 	}
+	for _, run := range runs {
+		numberSoup(t, run.pieces, run.depth)
+	}
+	hC05.Class("number-soup-sweep")
+}
+
+func numberSoup(t *testing.T, pieces []string, depth int) {
 	for _, g := range numberKeys {
 		for _, key := range g.keys {
 			var rec func(val string, d int)
@@ -436,14 +451,13 @@ func TestC05NumberSoup(t *testing.T) {
 				if d == depth {
 					return
 				}
-				for _, p := range numberPieces {
+				for _, p := range pieces {
 					rec(val+p, d+1)
 				}
 			}
 			rec("", 0)
 		}
 	}
-	hC05.Class("number-soup-sweep")
 }
 
 // TestC05RepoLogs replays every line of the repository's test logs through the
